@@ -377,7 +377,20 @@ def check(run: Run) -> None:
                     return [y_ for x_ in t_[1] for y_ in _leaves(x_)]
                 return [t_]
 
-            some_filled = any(_is_filled(x_) for x_ in _leaves(nt))
+            nts = [nt]
+            if g_ is not pm0 and nt[0] == "param" and nt[1] in g_.pos_params:
+                # the record is made by a private helper: what it carries is what its call sites hand it
+                nts = []
+                for c_, call, sk_ in call_sites_of(m, m.funcs.get(g_.qual, g_)):
+                    if not any(c_ is u or c_.name == u.name for u in u_fns):
+                        continue
+                    k_ = g_.pos_params[sk_:].index(nt[1]) if nt[1] in g_.pos_params[sk_:] else None
+                    actual = call.args[k_] if k_ is not None and k_ < len(call.args) else next((kw_.value for kw_ in call.keywords if kw_.arg == nt[1]), None)
+                    fc_ = ctx_u.analysis(c_)
+                    if actual is not None and fc_.cfg.has_node(actual):
+                        nts.append(strip_sites(fc_.term_of(actual)))
+                nts = nts or [nt]
+            some_filled = any(_is_filled(x_) for t0_ in nts for x_ in _leaves(t0_))
             if raw_ok and not _is_filled(nt) and not some_filled:
                 run.fail("C07.R2", g_, stmt_of(c), "when no candidate can be typed the record of last resort carries the call as written, although a definition of the method was found and normalised against: e.coll() for def coll(self, n: int = 3) -> <an annotation that cannot be resolved> stays e.coll() instead of e.coll(3), and keywords stay keywords", "node=<the normalised call of the first candidate> (the raw call only if there is no candidate)", show(nt)[:200], key="normalised call dropped when the return type is unknown")
             else:
